@@ -2,6 +2,7 @@ package main
 
 import (
 	"fmt"
+	"go/ast"
 	"go/types"
 	"strings"
 
@@ -53,7 +54,7 @@ func (g *Gen) freshResults(f *Frame, base string, sig *types.Signature) []Term {
 		n := g.fresh(f.prefix + base + ".r")
 		g.declare(n, srt)
 		tm := Term{n, srt, t}
-		g.typeFacts(f.en, tm, f.st, true)
+		g.typeFacts(f.en, tm, g.now(f.st), true)
 		rs = append(rs, tm)
 	}
 	return rs
@@ -63,9 +64,11 @@ func (g *Gen) havocAll(f *Frame) {
 	g.cur = f
 	g.frameHavocAll()
 	old := g.now(f.st)
+	oldSt := f.st
 	g.nfresh++
 	f.st = &State{comp: map[string]string{}, base: fmt.Sprintf("e%d", g.nfresh)}
 	g.assume(f.en, fmt.Sprintf("(<= %s %s)", old, g.now(f.st)))
+	g.preservePrivate(f, oldSt, f.st, nil)
 }
 
 func (g *Gen) mayPanic(f *Frame, what string) {
@@ -441,12 +444,16 @@ func (g *Gen) applyContract(f *Frame, c *Contract, names []string, args []Arg, s
 		for _, m := range c.Modifies {
 			targets = append(targets, g.modLocs(pre, m)...)
 		}
-		g.havocTargets(f, pre, targets)
 		// allocation may have advanced
 		nn := g.fresh("now")
 		g.declare(nn, "Int")
 		f.st.comp[nowComp] = nn
 		g.assume(f.en, fmt.Sprintf("(<= %s %s)", nowOld, nn))
+		g.havocTargets(f, pre, targets)
+	}
+	// preserved expressions keep their value on every exit, normal or by panic
+	for _, pc := range c.Preserves {
+		g.assume(f.en, g.preservedFormula(env, pc, old, f.st))
 	}
 	if !c.NoPanic {
 		g.mayPanic(f, label)
@@ -483,6 +490,7 @@ func (g *Gen) havocTargets(f *Frame, env *Env, targets []modLoc) {
 			g.declare(n, g.compSort[l.whole])
 			oldc := g.get(f.st, l.whole)
 			f.st.comp[l.whole] = n
+			g.verBound[n] = g.now(f.st)
 			if l.exceptRef != "" {
 				// only the backing array exceptRef (and fresh arrays) may differ
 				g.emit("(assert (=> %s (forall ((r Int)) (=> (and (not (= r %s)) (<= r %s)) (= (select %s r) (select %s r))))))",
@@ -494,7 +502,7 @@ func (g *Gen) havocTargets(f *Frame, env *Env, targets []modLoc) {
 		n := g.fresh("hv")
 		g.declare(n, srt)
 		g.write(f.st, l.loc, n)
-		g.typeFacts(f.en, Term{n, srt, l.loc.typ}, f.st, true)
+		g.typeFacts(f.en, Term{n, srt, l.loc.typ}, g.now(f.st), true)
 	}
 }
 
@@ -524,4 +532,25 @@ func (g *Gen) pkgOfContract(c *Contract) *types.Package {
 		return p.Types
 	}
 	return nil
+}
+
+// preservedFormula: the clause's expression has the same value in both states; elems(x) means every element of slice x.
+func (g *Gen) preservedFormula(env *Env, pc *Clause, old, nw *State) string {
+	if c, ok := pc.Expr.(*ast.CallExpr); ok {
+		if id, ok := c.Fun.(*ast.Ident); ok && id.Name == "elems" {
+			x := env.withState(old).tr(c.Args[0])
+			sl, ok := types.Unalias(x.T).Underlying().(*types.Slice)
+			if !ok {
+				cerr("preserves elems() of non-slice")
+			}
+			comp, _ := g.elemComp(sl.Elem())
+			g.nfresh++
+			q := fmt.Sprintf("pk%d", g.nfresh)
+			return fmt.Sprintf("(forall ((%[1]s Int)) (=> (and (<= 0 %[1]s) (< %[1]s (s_len %[2]s))) (= (select (select %[3]s (s_ref %[2]s)) (+ (s_off %[2]s) %[1]s)) (select (select %[4]s (s_ref %[2]s)) (+ (s_off %[2]s) %[1]s)))))",
+				q, x.S, g.get(nw, comp), g.get(old, comp))
+		}
+	}
+	before := env.withState(old).tr(pc.Expr)
+	after := env.withState(nw).tr(pc.Expr)
+	return fmt.Sprintf("(= %s %s)", after.S, before.S)
 }
